@@ -78,6 +78,31 @@ CHECKS = {
    note=BASE_NOTE + 'Linearity of direct, onion_bordas, linbasex, rbasex image synthesis, set_center, radial_intensity, Distributions is checked on the implementation only; scipy.ndimage interpolation assumed linear; Hansen-Law Q instance rounds to 120 bits.',
    technique='Coq proofs (mathcomp + induction) over regenerated expressions + operator extraction on implementation',
    design='DESIGN.md §3 C04'),
+ 'C07': dict(
+   text=('Theorems (Coq, all finite histories, all parameter values; closed under the global context): for basex, the three Dasch '
+         'methods, daun (degrees 0-3), linbasex and rbasex (transform calls and the public get_bs_cached accessor, valid and '
+         'invalid parameters, weights, cache clean-ups, pre-seeded files) the result of any call after any history equals the '
+         'result from the initial state -- cache state machines with symbolic content (key determines content), crop laws for '
+         'triangular bases (leading-block inverse, mathcomp); cache_cleanup only changes speed; basis_dir resolution and '
+         'basis_dir_cleanup remove exactly the method\'s files. Tie: after every operation of directed and random histories the '
+         'model\'s observation (module globals, directory listing, outcome class, agreement with a fresh-state worker process) is '
+         'compared inside Coq with the implementation\'s. Search: every call of a history against a fresh process/empty directory, '
+         'failing histories shrunk to replays.'),
+   note=BASE_NOTE + 'Hand-written state-machine models of the five caching modules (tied by correspondence); numeric content is symbolic; "same result" = 1e-7 relative; environment assumptions (writable directories, files on disk are what a save writes) stated in the theorems.',
+   technique='Coq invariant proofs over cache state machines (induction over operation lists) + history correspondence + fresh-process search',
+   design='DESIGN.md §3 C07'),
+ 'C08': dict(
+   text=('Theorems (Coq, all arrays, all byte offsets, all schedules): byte-level .npy codec parse(serialize a) = a, every proper '
+         'prefix of a saved file is rejected (every crash point), trailing bytes ignored; for each caching method a missing, empty, '
+         'truncated, garbage or wrong-shape file yields the fresh result or an exception, also after a raising call; the atomic '
+         'writer (temp file + os.replace) is safe for any number of writers and any chunking; sensitivity theorems for an in-place '
+         'writer (two chunks safe, three chunks refuted). Tie: serialize/parse compared byte for byte with numpy.save/load on every '
+         'prefix and a garbage stream; handler model vs observed behaviour on every damaged content; strace guard that every basis '
+         'file appears by rename of a fully written temp file. Search: damage sweeps per method against the no-disk-cache result; '
+         'multi-process race smoke test in the thorough tier.'),
+   note=BASE_NOTE + 'Concurrency modelled at syscall granularity (a torn single write is a truncation); valid files with different numbers are outside the fault class (no checksum exists).',
+   technique='Coq proofs over a byte-level codec and file-fault/interleaving model + codec correspondence + damage sweep + strace guard',
+   design='DESIGN.md §3 C08'),
  'C09': dict(
    text=('Theorems (Coquelicot, unbounded in indices and sizes) over closed forms REGENERATED from the current source by '
          'tools/translate/formulas_basis.py: every daun entry of degrees 0-2 and the degree-3 Hermite pair equals the Abel integral of '
@@ -89,6 +114,29 @@ CHECKS = {
    note=BASE_NOTE + 'basex projections and the daun-3 clamped-spline solve have no theorem (instances + quadrature sweep); Dasch axis row is a documented convention.',
    technique='Coq/Coquelicot proofs over source-regenerated closed forms + Interval translation validation + quadrature search',
    design='DESIGN.md §3 C09'),
+ 'C10': dict(
+   text=('Theorems (Coquelicot; unbounded in degree, grid and r): the Pascal/Toeplitz shift and stretch define the same function; '
+         '.func is the polynomial on its interval and 0 outside for any ascending grid; the one-sided integrals a(k) are '
+         'antiderivatives of (x^2+y^2)^(k/2) for all k (induction) and the code\'s recursion equals their difference, hence .abel '
+         'is the Abel integral of .func for every coefficient vector, shift, stretch and reduction; piecewise sums and scalar '
+         'multiples; Angular add/sub/mul are evaluation homomorphisms, cos/sin powers, Legendre (Bonnet recursion for all n). '
+         'Per-run Interval goals: ApproxGaussian segment bounds for the ranges the implementation returns, .abel of random '
+         'Polynomials. Tie: regenerated formulas/translators, vm_compute and Interval correspondence on random objects, Angular.c '
+         'exactly over Q. Search: quadrature of the defining integrals for all four polynomial classes, algebra laws, copies, '
+         'bspline, ApproxGaussian by dense sampling.'),
+   note=BASE_NOTE + 'SPolynomial/PiecewiseSPolynomial/bspline are swept numerically only; ApproxGaussian for all tol is instance level; one recorded finding (ApproxGaussian up to 1.065 tol in narrow bands).',
+   technique='Coq/Coquelicot proofs + Interval-checked instances + correspondence + quadrature search',
+   design='DESIGN.md §3 C10'),
+ 'C11': dict(
+   text=('Theorems over closed forms REGENERATED from analytical.py / transform_pairs.py: StepAnalytical and profiles 1, 2, 3, 5, 7 '
+         'are exact Abel pairs for every r; profile 4 deviates by exactly sqrt(1-r^2)(10 r^2-1)/3e6 (bounded by 1.2e-6, refuted as '
+         'exact); Gaussian pair up to the trusted Gaussian integral; grid, mirror layout and masks consistent for odd and even n. '
+         'Instances (Interval/integral): profile 6, Gaussian enclosure, translation validation of every formula against the '
+         'Python floats. Search: quadrature of the line-of-sight integral against .abel for every analytical class, all seven '
+         'profiles up to n=1001 and every SampleImage name.'),
+   note=BASE_NOTE + 'Profile 6 and SampleImage accuracy are instance/numeric level; improper Gaussian integral trusted; one recorded finding (profile 4 published rounded constants).',
+   technique='Coq/Coquelicot proofs over regenerated closed forms + Interval translation validation + quadrature search',
+   design='DESIGN.md §3 C11'),
  'C12': dict(
    text=('Theorems (Coq, every shape, every origin): set_center with a whole-pixel origin is the stated translation for the '
          'three crop modes (pixel formula + shape; valid_region maximal; maintain_data keeps every pixel), axes not selected or '
